@@ -182,11 +182,16 @@ Call(r, t, f, via) ==
 
 Begin(op) == op \in AdminOps /\ MutexFree /\ cnt.admins < MaxAdmin /\ cnt' = [cnt EXCEPT !.admins = @ + 1]
 
+(* the table has a unique key on the id: revoking a listed id again fails in   *)
+(* handle.Insert and Blacklist returns the error before it purges anything     *)
 BlInsert(t) ==
   /\ Begin("blacklist")
-  /\ db' = db \cup {t}
-  /\ adm' = [op |-> "blacklist", t |-> t, pc |-> "inserted", before |-> db]
-  /\ Obs("BlInsert", "adm", t, "", "blacklist.inserted")
+  /\ IF t \in db
+       THEN /\ UNCHANGED <<db, adm>>
+            /\ Obs("BlInsert", "adm", t, "", "error")
+       ELSE /\ db' = db \cup {t}
+            /\ adm' = [op |-> "blacklist", t |-> t, pc |-> "inserted", before |-> db]
+            /\ Obs("BlInsert", "adm", t, "", "blacklist.inserted")
   /\ UNCHANGED <<kind, clock, tcache, bcache, req>>
 
 BlPurgeBL ==
